@@ -135,9 +135,20 @@ def run(ctx):
     if ctx.thorough:
         ctx.exhaustive.append("every root child position x every insertion kind for one document of every class")
     # the three classes whose groom renames the first YIELD / FROM: an extra one stays unknown
-    for name in [c["name"] for c in classes if c.get("groom")]:
+    # (which classes rename is NOT taken from the translator's probe of the groom hooks alone — a changed hook may no longer
+    #  look like a rename to it: OFX tags that are Python keywords are stored under YLD / FRM, so a class with such an
+    #  attribute reads YIELD / FROM)
+    RESERVED = {"yld": ("YIELD", "YLD"), "frm": ("FROM", "FRM")}
+    renaming = {}
+    for c in classes:
+        if c.get("groom"):
+            renaming[c["name"]] = tuple(c["groom"])
+        for a in c["spec"]:
+            if a["name"] in RESERVED:
+                renaming.setdefault(c["name"], RESERVED[a["name"]])
+    for name in sorted(renaming):
         c = by_name[name]
-        src, dst = c["groom"]
+        src, dst = renaming[name]
         for _ in range(ctx.budget(10, 60)):
             d, inst = gen.valid_instance(name, force=[dst.lower()])
             if d is None:
